@@ -34,7 +34,7 @@ type FaultEv struct {
 	Res     GenRes `json:"res"`
 	Same    int    `json:"same"` // result identical to the fault-free run
 	Starved int    `json:"starved"`
-	ErrKind string `json:"errKind"` // plain | EINTR | EAGAIN | wrapped-EINTR | EOF
+	ErrKind string `json:"errKind"` // plain | EINTR | EAGAIN | wrapped-EINTR | EOF (unexpected) | ioEOF (bare io.EOF)
 }
 
 func genBody(sc Scenario) (func() GenRes, error) {
@@ -136,7 +136,7 @@ func cmdFaults(args []string) {
 			name string
 			err  error
 		}{{"plain", nil}, {"EINTR", syscall.EINTR}, {"EAGAIN", syscall.EAGAIN}, {"wrapped-EINTR", fmt.Errorf("read /dev/urandom: %w", syscall.EINTR)},
-			{"EOF", io.ErrUnexpectedEOF}}
+			{"EOF", io.ErrUnexpectedEOF}, {"ioEOF", io.EOF}}
 		nerr := 0
 		replay := func(mode string, k, j int, chunk []int) {
 			t := &Tape{}
@@ -144,7 +144,11 @@ func cmdFaults(args []string) {
 				t.Push(w)
 			}
 			ek := errKinds[0]
-			if mode == "error" {
+			if mode == "error-eof" {
+				// the source is exhausted exactly at a word boundary: a bare io.EOF with nothing delivered
+				mode, ek = "error", errKinds[len(errKinds)-1]
+				t.FailAt, t.FailGot, t.FailErr = k, 0, ek.err
+			} else if mode == "error" {
 				ek = errKinds[nerr%len(errKinds)]
 				nerr++
 				t.FailAt, t.FailGot, t.FailErr = k, j, ek.err
@@ -167,6 +171,7 @@ func cmdFaults(args []string) {
 			for j := 0; j <= 3; j++ {
 				replay("error", k, j, nil)
 			}
+			replay("error-eof", k, 0, nil)
 			for _, ch := range [][]int{{1}, {2}, {3}, {1, 1, 1, 1}, {2, 1}, {1, 3}} {
 				replay("short", k, ch[0], ch)
 			}
